@@ -707,6 +707,23 @@ def run_check(prop, tier, seed, replay=None):
     return rc
 
 
+def regenerate_only(prop):
+    """Rewrite the translated / table Lean files of a property from REPO's current working tree (no build, no run).
+    Used by setup.py and after a check was run against another tree (VERIF_REPO), so that lean/EaselModel/Generated
+    always reflects /repo when nothing else is going on."""
+    if type(prop).generated is Prop.generated:
+        return []
+    ctx = Ctx(prop, "quick", 1)
+    ctx.src = build_lib(prop.sanitize)
+    gen = prop.generated(ctx)
+    changed = []
+    with LakeLock():
+        for rel, content in gen.items():
+            if write_if_changed(os.path.join(LEAN, rel), content):
+                changed.append(rel)
+    return changed
+
+
 def case_still_fails(ctx, case, f):
     impl = run_side(ctx.harness_exe, [case], cwd=ctx.work)[0] or []
     impl = [l for l in impl if l != ""]
